@@ -35,9 +35,18 @@ TypeVerdict(e) == IF IntTyped(e.term, e.ctx) /\ e.obs.t \in {"float", "inf", "na
 \* (a result of millions of bits is not shipped to the validator: o.huge - judged by type and sign only)
 \* an equation whose sides are exactly computable and clearly apart must raise, whatever the number types involved
 FarApartVerdict(e) == IF EqFarApart(e.term, e.ctx) /\ e.obs.t # "exc" THEN {"unequal_equation_not_raised"} ELSE {}
+\* IEEE special values: an operation that overflows gives an infinity of the right sign, an invalid operation (inf - inf, inf * 0,
+\* inf / inf, anything / 0) gives NaN, and a computation that stays well inside the range gives a finite number - never an exception
+ExtVerdict(e) ==
+  LET x == ExtVal(e.term, e.ctx)  o == e.obs IN
+  IF AnyMissing(e.term, e.ctx) \/ e.term.k = "eq" THEN {} ELSE
+  CASE x.c = "inf" -> (IF o.t = "inf" /\ o.neg = (x.s < 0) THEN {"note_special_infinity"} ELSE {"overflow_is_not_the_signed_infinity"})
+    [] x.c = "nan" -> (IF o.t = "nan" THEN {"note_special_nan"} ELSE {"invalid_operation_is_not_nan"})
+    [] x.c = "fin" -> (IF o.t \in {"float", "int"} THEN {} ELSE {"finite_value_reported_as_special_or_raised"})
+    [] OTHER -> {}
 Verdict(e) == IF e.obs.t = "mutated" THEN {"evaluate_modifies_the_assignment"}
               ELSE IF e.obs.t = "int" /\ e.obs.huge THEN SignVerdict(e) \cup (IF IntTyped(e.term, e.ctx) THEN {} ELSE {"note_not_judged"})
-              ELSE SignVerdict(e) \cup TypeVerdict(e) \cup ValueVerdict(e) \cup FarApartVerdict(e)
+              ELSE SignVerdict(e) \cup TypeVerdict(e) \cup ValueVerdict(e) \cup FarApartVerdict(e) \cup ExtVerdict(e)
 VARIABLES i, v
 Init == i \in 1..N /\ v = {"pending"}
 Next == v = {"pending"} /\ v' = Verdict(Events[i]) /\ UNCHANGED i
